@@ -36,6 +36,18 @@ CLAIMS = {
   text="Static containment analysis of every filesystem/bolt access of the persistent backends: key-derived afero paths are dominated by a checked containment sanitiser (a path.Clean-fixpoint test with an error arm); bolt bucket operations on request names are dominated by a rejecting comparison with the internal bucket name; single-bucket methods compare the bucket name before any effect; multi-bucket object methods establish bucket existence first; the metadata file name hashes the unmodified key; routing passes names unchanged; RemoveAll is never applied to key-derived paths.",
   note="trusted: go/ssa, provenance slices. Not decided: whole-store non-interference, percent-encoding, OS behaviour for odd names, keys that are path-prefixes of other keys on fs backends.",
   tech="taint-style provenance slices to path arguments + guard dominance (sanitiser must dominate sink)", ref="DESIGN.md §4 C10"),
+ "C05": dict(
+  text="Static analysis of version retention in the memory backend and its handlers on all paths: the versionId of GET/HEAD/DELETE reaches the versioned backend call and the response is built from its result; the current version is archived under its own id before replacement when versioning is enabled; bucketObject.data is never nil while the key is in the bucket (every store provably non-nil, every new object gets data before it is reachable), nilable iterator fields guarded; archived versions are discarded only by rmVersion/promote with the addressed id, keys leave the bucket only when nothing remains, setVersioning touches only the status; every put draws a fresh id whose provenance includes the mutex-protected counter; (R05.6) enum-path analysis over bucket.versioning shows where a current version is overwritten without archiving — today under Suspended (known findings F21a/b).",
+  note="trusted: go/ssa, container-homogeneity premise for values read from the versions skiplist. Known findings: F21a/F21b (Suspended overwrite) listed in known_findings.json. Not decided: 'most recently created' order, multi-delete semantics, byte identity of old versions (R01.6 under C07).",
+  tech="SSA dominance / must-pass-through, nil-ness dataflow, finite-enum path analysis (edges infeasible under an assumed field value), provenance slices", ref="DESIGN.md §4 C05"),
+ "C13": dict(
+  text="Static analysis of ListObjectVersions (memory backend + handler) on all paths: truncation is always accompanied by NextKeyMarker/NextVersionIdMarker from the last listed version; IsLatest is the identity test with the iterated object's current version, which the iterator yields exactly once; nilable iterator fields guarded; 'null' substitution covers every entry, ids masked only for never-versioned buckets; every listed entry passes the counter and the cnt>=MaxKeys test before the next; marker-combination guards precede the backend call; listed Key/Size/ETag come from the listed version and delete markers are built on the deleteMarker arm; entries only under a positive, ungrouped prefix match.",
+  note="trusted: go/ssa. Not decided: exactly-once across pages, order inside a key, Prefix.Match semantics, that the returned markers resume at the right entry.",
+  tech="SSA dominance / reaches-avoiding (must-pass-through), provenance slices, nil-ness dataflow", ref="DESIGN.md §4 C13"),
+ "C14": dict(
+  text="Static analysis of ListParts/ListMultipartUploads (in-memory uploader + handlers) on all paths: listed PartNumber and NextPartNumberMarker are indices into the unsliced parts slice and Size/ETag come from that slot; all compiler-reported bounds sites of the uploader discharged; truncation always sets the continuation markers on the same path; the upload map and the per-key index are written only by add/remove, both in step, and the index never keeps an empty slice; uploads are listed only under a positive ungrouped prefix match from the iterated index entry and counted against the limit; every access to uploader state holds uploader.mu (static lockset); max-uploads/max-parts/marker clamped and passed on.",
+  note="trusted: go/ssa, gc prove pass (bounds list), VTA call graph for the lockset. Not decided: exactly-once across pages for uploads, prefix grouping semantics, initiation-time order.",
+  tech="provenance slices + dominance, bounds-obligation discharge, static lockset restricted to uploader state", ref="DESIGN.md §4 C14"),
 }
 
 NOT_APPLICABLE = {
